@@ -49,7 +49,10 @@ def short_extra(rng, rec):
     """short / supra / id forms followed by ordinary words (span arithmetic)."""
     r = rng.random()
     page = rng.choice([gen.num(rng), "xii", "___", "iv", gen.num(rng)])
-    tail = rng.choice([" because", ".", ", 7.", " (noting x).", " and", "; see", " n.3", "-" + gen.num(rng) + ".", ")"])
+    tail = rng.choice([" because", ".", ", 7.", " (noting x).", " and", "; see", " n.3", "-" + gen.num(rng) + ".", ")",
+                       # nothing scannable after the citation: end of the text, end of the paragraph, the next
+                       # special token at once
+                       "", "", "\n", "\nThe next paragraph.", " Id. at 3.", " § 5", " supra", " 1 U.S. 1"])
     if r < 0.06:
         # pin cites on both sides of an antecedent-introduced full citation
         return (f"{gen.name(rng)} at {gen.num(rng)}, {gen.num(rng)} {gen.rep(rng)} {gen.num(rng)}, "
